@@ -265,6 +265,18 @@ def _fold(rep, contract_mod, r, meta, verbose):
         rep.add(Obligation("%s/no-unexpected-exception" % hname, clause,
                            "no exception escapes the harness on any feasible path (%d paths)" % r["paths"],
                            DISCHARGED, "path-exploration", 0.0, label=label, vcs=r["paths"]))
+    wh = sorted({u for u in r["unsupported"] if "WITHHELD:" in u})
+    if wh:
+        ob = Obligation("%s/reads-only-the-declared-inputs" % hname, clause,
+                        "the code under test does not read the withheld inputs", FAILED, "dependence-tracking", 0.0,
+                        label=label, detail="; ".join(wh)[:800])
+        ob.harness = None
+        rep.add(ob)
+        r["unsupported"] = [u for u in r["unsupported"] if "WITHHELD:" not in u]
+    elif meta.get("withheld"):
+        rep.add(Obligation("%s/reads-only-the-declared-inputs" % hname, clause,
+                           "the code under test does not read the withheld inputs (%s)" % meta.get("withheld"),
+                           DISCHARGED, "dependence-tracking", 0.0, label=label, vcs=r["paths"]))
     for u in sorted(set(r["unsupported"])):
         rep.add(Obligation("%s/in-subset" % hname, clause, "all code reached by the harness is inside the executor's subset",
                            UNDECIDED, "engine", 0.0, label=label, detail=u))
